@@ -61,8 +61,9 @@ LEVEL_TEXT = ('Proof: for all amplitudes, locations, scales >= 1e-15, fractions,
               'fwhm methods (pseudo-Voigt: every fraction), Lorentzian integral exactly (atan form + limit A), Gaussian and '
               'pseudo-Voigt integrals within 2e-9|A| on >= 12 sigma; prefix stripping, refusal of wrong parameter sets and '
               'composite = sum of parts on a hand model of the object layer validated against the implementation '
-              '(~750 element cases, quick tier; x as 0-d / ascending / descending / shuffled 1-d / 2-d / transposed arrays '
-              'reaching 1e3 widths into both tails) inside Coq over exact rationals.')
+              '(~830 element cases, quick tier; x as 0-d / ascending / descending / shuffled 1-d / 2-d / transposed arrays '
+              'reaching 1e3 widths into both tails; float32 / int64 x with scales at both ends of the range; unknown names '
+              'one edit away from a valid one) inside Coq over exact rationals.')
 LEVEL_NOTE = ('Trusted: Coq kernel; std-lib real-number axioms (sig_forall_dec, sig_not_dec, functional_extensionality_dep, classic); '
               'Coquelicot, coq-interval; py2coq translator; Sem/Val.v + C16/SemExt.v model of scipp/Python primitives; '
               'C16/Model.v object layer (correspondence); rounding handled by tolerance, not by theorem.')
@@ -198,7 +199,7 @@ def leaves(m, pre=''):
     return [(m, pre + m['prefix'])]
 
 
-def gen_params(rng, m, ux, uy, center, width, fraction=None):
+def gen_params(rng, m, ux, uy, center, width, fraction=None, plain=False):
     """numeric parameter values (floats, in units ux / uy) for every leaf; returns {name: var}, info"""
     params, info = {}, []
     for leaf, pre in leaves(m):
@@ -212,6 +213,8 @@ def gen_params(rng, m, ux, uy, center, width, fraction=None):
         A = sgn(rng) * kcorr.loguniform(rng, 1e-3, 1e3)
         s = width * rng.choice([1.0, 1.0, kcorr.loguniform(rng, 0.1, 10)])
         mu = center + rng.choice([0.0, 0.0, rng.uniform(-3, 3) * width])
+        if plain:
+            s, mu = width, center
         params[pre + 'amplitude'] = var([A], [[uy, 1], [ux, 1]])
         params[pre + 'loc'] = var([mu], [[ux, 1]])
         params[pre + 'scale'] = var([s], [[ux, 1]])
@@ -223,6 +226,43 @@ def gen_params(rng, m, ux, uy, center, width, fraction=None):
             params[pre + 'fraction'] = var([f], [])
         info.append((k, A, mu, s, f))
     return params, info
+
+
+NEAR_VARIANTS = ['same-length-prefix', 'bare', 'prefix-twice', 'suffix', 'truncated', 'case', 'same-length-head']
+
+
+def _alt(c):
+    return 'q' if c != 'q' else 'r'
+
+
+def near_miss(rng, prefix, names, variant=None):
+    """an UNKNOWN parameter name one edit away from a valid one (names = the prefixed names of the model,
+    prefix = the model's own prefix) -> (variant, valid name it derives from, unknown name) or None.
+    same-length-prefix: another prefix of the same length + the same bare name (first / last / every character
+    of the prefix changed); bare: the prefix dropped; prefix-twice; suffix: one character appended; truncated:
+    the last character dropped; case: case swapped; same-length-head: first character of the full name changed."""
+    cands = []
+    for nm in names:
+        rest = nm[len(prefix):]
+        if prefix:
+            cands += [('same-length-prefix', nm, _alt(prefix[0]) + prefix[1:] + rest),
+                      ('same-length-prefix', nm, prefix[:-1] + _alt(prefix[-1]) + rest),
+                      ('same-length-prefix', nm, ''.join(_alt(c) for c in prefix) + rest),
+                      ('bare', nm, rest), ('prefix-twice', nm, prefix + nm)]
+        cands += [('suffix', nm, nm + '_'), ('truncated', nm, nm[:-1]), ('case', nm, nm.swapcase()),
+                  ('same-length-head', nm, _alt(nm[0]) + nm[1:])]
+    cands = [c for c in cands if c[2] and c[2] not in names and (variant is None or c[0] == variant)]
+    if not cands:
+        return None
+    if variant is None:
+        v = rng.choice(sorted({c[0] for c in cands}))
+        cands = [c for c in cands if c[0] == v]
+    return rng.choice(cands)
+
+
+def f32(v):
+    import struct
+    return struct.unpack('f', struct.pack('f', v))[0]
 
 
 def gauss(A, mu, s, x):
@@ -263,9 +303,19 @@ def gen_groups(rng, n):
     battery3 = [(k, lay) for k in ('gauss', 'lorentz', 'pvoigt', 'poly', 'comp') for lay in WIDE_LAYOUTS + ['0d']]
     # ... and the pseudo-Voigt at both ends of the fraction range (pure Gaussian / pure Lorentzian)
     battery4 = [(w, fr) for w in ('fwhm', 'call') for fr in (0.0, 1.0)]
+    # ... and every kind of model called with an UNKNOWN name one edit away from a valid one (near_miss), given
+    # instead of the valid name or in addition to the complete valid set; once with another prefix of the same
+    # length (model prefix non-empty), once with a random kind of near miss
+    battery5 = [(k, mode, v) for k in ('gauss', 'lorentz', 'pvoigt', 'poly', 'comp') for mode in ('near-replace', 'near-extra')
+                for v in ('same-length-prefix', None)]
+    # ... and every peak model on float32 / integer x together with scales at the lower end (and the upper part)
+    # of the range: the width a model uses may not depend on the dtype of x
+    battery6 = [(k, dt, sc_) for k in ('gauss', 'lorentz', 'pvoigt') for dt in ('float32', 'int64') for sc_ in ('small', 'large')]
     nb12 = len(battery) + len(battery2)
     nb123 = nb12 + len(battery3)
-    for gi in range(n + nb123 + len(battery4)):
+    nb1234 = nb123 + len(battery4)
+    nb12345 = nb1234 + len(battery5)
+    for gi in range(n + nb12345 + len(battery6)):
         r = rng.random()
         forced = battery[gi] if gi < len(battery) else None
         forced2 = battery2[gi - len(battery)] if len(battery) <= gi < nb12 else None
@@ -277,8 +327,12 @@ def gen_groups(rng, n):
         forced4 = battery4[gi - nb123] if nb123 <= gi < nb123 + len(battery4) else None
         if forced3:
             r = 0.6 if forced3[0] != 'comp' else 0.2
-        if forced4:
+        forced5 = battery5[gi - nb1234] if nb1234 <= gi < nb12345 else None
+        forced6 = battery6[gi - nb12345] if nb12345 <= gi < nb12345 + len(battery6) else None
+        if forced4 or forced6:
             r = 0.6
+        if forced5:
+            r = 0.9
         ux, uy = rng.choice(XUNITS), rng.choice(YUNITS)
         xdt = rng.choice(['float64', 'float64', 'float64', 'float32', 'int64'])
         # integer x: widths >= 10 so that rounding x to integers keeps |x - loc| / scale moderate (the exact
@@ -288,10 +342,18 @@ def gen_groups(rng, n):
             width = rng.choice([1e-6, 2e-6, 5e-6, 1e-5])      # lower end of the range, numerically in the unit of x
         center = rng.choice([0.0, sgn(rng) * kcorr.loguniform(rng, 1e-3, 1e3) * width,
                              sgn(rng) * kcorr.loguniform(rng, 1e3, 1e6) * width])
+        if forced6:
+            # float32: scales 1e-6..1e-3 / 1e3..1e6, the peak within 8 widths of 0 so that the float32 x values stay
+            # distinct; integer x: scales 1e-3..0.1 (x = loc, loc +- 1, ...: 10..3000 widths out) / 1e3..1e6
+            xdt = forced6[1]
+            lo, hi = {('float32', 'small'): (1e-6, 1e-3), ('float32', 'large'): (1e3, 1e6),
+                      ('int64', 'small'): (1e-3, 0.1), ('int64', 'large'): (1e3, 1e6)}[forced6[1:]]
+            width = kcorr.loguniform(rng, lo, hi)
+            center = rng.choice([0.0, float(rng.randint(-8, 8)) * width])
         if xdt == 'int64':
             center = float(max(-2 ** 40, min(2 ** 40, round(center))))
         m = gen_model(rng, 2) if r < 0.45 else gen_leaf(rng)
-        what, mutate = 'call', None
+        what, mutate, near = 'call', None, None
         if 0.72 <= r < 0.80:
             what = rng.choice(['names', 'bounds', 'guess'])
             m = gen_model(rng, 1)
@@ -299,7 +361,7 @@ def gen_groups(rng, n):
             what = 'fwhm'
             m = gen_leaf(rng) if rng.random() < 0.9 else gen_model(rng, 1)
         elif r >= 0.88:
-            mutate = rng.choice(['missing', 'extra', 'wrong-prefix', 'loc-unit', 'scale-unit', 'loc-dim',
+            mutate = rng.choice(['missing', 'extra', 'wrong-prefix', 'near-replace', 'near-extra', 'loc-unit', 'scale-unit', 'loc-dim',
                                  'amp-unit', 'overlap', 'degree0', 'y-mismatch'])
         if forced:
             mutate = forced[1]
@@ -316,6 +378,13 @@ def gen_groups(rng, n):
                          gen_leaf(rng, rng.choice(['gauss', 'pvoigt']), 'p_'))
         if forced4:
             what, m = forced4[0], gen_leaf(rng, 'pvoigt')
+        if forced5:
+            mutate = forced5[1]
+            pre = rng.choice([q for q in PREFIXES + NASTY if q])
+            m = gen_leaf(rng, forced5[0], pre) if forced5[0] != 'comp' else \
+                gen_comp(rng, gen_leaf(rng, 'poly', 'b_'), gen_leaf(rng, rng.choice(['gauss', 'lorentz', 'pvoigt']), 'p_'), pre)
+        if forced6:
+            m = gen_leaf(rng, forced6[0])
         if mutate == 'overlap':
             p = rng.choice(PREFIXES)
             k = rng.choice(['gauss', 'lorentz', 'pvoigt'])
@@ -337,7 +406,8 @@ def gen_groups(rng, n):
             groups.append({'id': gi, 'what': what, 'model': m, 'params': {}, 'x': var(xs, [[ux, 1]], 'float64', 'x'),
                            'y': var(ys, [[uy, 1]], 'float64', 'x'), 'info': [], 'mutate': None})
             continue
-        params, info = gen_params(rng, m, ux, uy, center, width, fraction=forced4[1] if forced4 else None)
+        params, info = gen_params(rng, m, ux, uy, center, width, fraction=forced4[1] if forced4 else None,
+                                  plain=bool(forced6))
         # layout of x: a short unordered 1-d sample within 30 widths (most groups), or an array in one of the
         # WIDE_LAYOUTS / a 0-d x reaching into the far tails
         xl = 'sample'
@@ -345,7 +415,10 @@ def gen_groups(rng, n):
             xl = forced3[1]
         elif what == 'call' and mutate is None and rng.random() < 0.3:
             xl = rng.choice(WIDE_LAYOUTS + ['0d'])
-        if xl == 'sample':
+        if forced6 and forced6[1:] == ('int64', 'small'):
+            xl = 'int-near'
+            zs = [0.0] + [j / width for j in rng.sample([1, -1, 2, -2, 3, -3], 2)]
+        elif xl == 'sample':
             zs = rng.sample(ZS, 4 if n <= 200 else 6)
         elif xl == '0d':
             zs = [rng.choice(Z_NEAR + Z_MID + Z_FAR + [-z for z in Z_FAR])]
@@ -354,7 +427,7 @@ def gen_groups(rng, n):
         xs = [center + z * width for z in zs]
         if xdt == 'int64':
             xs = [float(max(-2 ** 40, min(2 ** 40, round(v)))) for v in xs]
-        x, _ = layout_x(xs, [[ux, 1]], xdt, 'given' if xl == 'sample' else xl, rng)
+        x, _ = layout_x(xs, [[ux, 1]], xdt, 'given' if xl in ('sample', 'int-near') else xl, rng)
         names = list(params)
         if mutate == 'missing':
             del params[rng.choice(names)]
@@ -366,6 +439,18 @@ def gen_groups(rng, n):
         elif mutate == 'wrong-prefix':
             nm = rng.choice(names)
             params['w' + nm] = params.pop(nm)
+        elif mutate in ('near-replace', 'near-extra'):
+            nmiss = near_miss(rng, m['prefix'], names, forced5[2] if forced5 else None)
+            if nmiss is None:
+                nmiss = ('suffix', names[0], names[0] + '_')
+            near = nmiss[0]
+            if mutate == 'near-replace':
+                # the unknown name takes the place (and the value) of the valid one
+                params = {(nmiss[2] if k == nmiss[1] else k): v for k, v in params.items()}
+            else:
+                # the complete valid set plus the unknown name (another value of the same unit), last or first
+                other = dict(params[nmiss[1]], values=[hexf(float.fromhex(params[nmiss[1]]['values'][0]) * 3.0)])
+                params = dict(params, **{nmiss[2]: other}) if rng.random() < 0.7 else dict({nmiss[2]: other}, **params)
         elif mutate in ('loc-unit', 'scale-unit', 'loc-dim', 'amp-unit'):
             cand = [nm for nm in names if nm.endswith({'loc-unit': 'loc', 'scale-unit': 'scale', 'loc-dim': 'loc', 'amp-unit': 'amplitude'}[mutate])]
             if cand:
@@ -385,7 +470,8 @@ def gen_groups(rng, n):
                 params['unrelated'] = var([2.0], [])
             x = None
         groups.append({'id': gi, 'what': what, 'model': m, 'params': params, 'x': x, 'info': info, 'mutate': mutate,
-                       'xlayout': xl if what == 'call' else None})
+                       'xlayout': xl if what == 'call' else None, 'near': near,
+                       'xclass': (forced6[1] + ':' + forced6[2] + '-scale') if forced6 else None})
     return groups
 
 
@@ -421,6 +507,10 @@ def cases_of(g, r):
     desc0 = {'what': g['what'], 'model': g['model'], 'mutate': g['mutate']}
     if g.get('xlayout'):
         desc0['x_layout'] = g['xlayout']
+    if g.get('near'):
+        desc0['near_miss'] = g['near']
+    if g.get('xclass'):
+        desc0['x_class'] = g['xclass']
     if g['what'] == 'construct':
         cls = r.get('construct_error', 'ok')
         return [(f'(mkp "construct" {mt} [] {DUMMY} (OutErr {cstr(cls)}) {TOL} (0 # 1))', dict(desc0, impl=cls))]
@@ -544,13 +634,20 @@ def correspondence(ctx):
     for i, why in sorted(fails.items()):
         d = descs[i]
         kind = d['model']['kind'] if d['model']['kind'] != 'comp' else 'composite'
-        key = f'{d["what"]}:{kind}:{why.split(":")[0]}' + (f':{d["mutate"]}' if d['mutate'] else '')
+        key = (f'{d["what"]}:{kind}:{why.split(":")[0]}' + (f':{d["mutate"]}' if d['mutate'] else '')
+               + (f':{d["near_miss"]}' if d.get('near_miss') else ''))
         ctx.violation(key, f'{d["what"]} on {kind}: implementation differs from {against} ({why}) on {d}',
                       {'case': d, 'reason': why, 'group': strip(by_id[d['group']]), 'against': 'RefLeaf.v' if use_ref else 'GenModel.v'})
     if mutated:
         ctx.coverage['calls_that_modified_their_arguments'] = mutated
-    per, per_layout = {}, {}
+    per, per_layout, per_near, per_xclass = {}, {}, {}, {}
     for d in descs:
+        if d.get('near_miss'):
+            k = d['mutate'] + ':' + d['near_miss'] + ':' + d['model']['kind']
+            per_near[k] = per_near.get(k, 0) + 1
+        if d.get('x_class') and not isinstance(d['impl'], str):
+            k = d['x_class'] + ':' + d['model']['kind']
+            per_xclass[k] = per_xclass.get(k, 0) + 1
         k = d['what'] + ':' + d['model']['kind'] + (':' + d['mutate'] if d['mutate'] else '')
         per[k] = per.get(k, 0) + 1
         if d.get('x_layout') and not isinstance(d['impl'], str):
@@ -567,13 +664,19 @@ def correspondence(ctx):
                 'battery of every model kind x layout) as an array reaching from the peak to 41..1000 widths into BOTH tails '
                 '(|x - loc| / scale up to 1e4) in ascending / descending / shuffled 1-d order, 2-d row-major, 2-d transposed '
                 '(non-contiguous view) or 0-d: every element is compared with the scalar model at that x; result dims/shape '
-                '= those of x; 12% error cases (missing/extra/misprefixed parameter, unit and '
+                '= those of x; a fixed battery of every peak model on float32 x with scales 1e-6..1e-3 and 1e3..1e6 and on int64 x '
+                'with scales 1e-3..0.1 (x = loc, loc +- 1..3) and 1e3..1e6; 12% error cases + a fixed battery (missing/extra/'
+                'misprefixed parameter; an unknown name ONE EDIT away from a valid one - another prefix of the same length, '
+                'prefix dropped / doubled, a character appended / dropped / changed, case swapped - given instead of the valid '
+                'name or in addition to the complete set, on every model kind; unit and '
                 'dimension mismatches, overlapping names, degree <= 0), 8% fwhm calls; every call / fwhm is made twice with the same '
                 'model and parameter objects (same result, arguments unchanged); non-trivial = the implementation returned a '
                 'value; distinct = distinct (model, params, x)',
         'samples': descs[:3] + descs[-2:],
         'per_kind': per,
         'per_x_layout': per_layout,
+        'per_near_miss_name': per_near,
+        'per_x_dtype_scale_class': per_xclass,
         'compared_with': 'coq/C16/RefLeaf.v (reference translation; regenerated model unavailable)' if use_ref else 'Run.GenModel (regenerated on this run)',
         'disagreements': len(fails),
         'scipp_version': res.get('scipp'),
@@ -645,14 +748,33 @@ def search(ctx, broken):
     for a, b in zip(edges[:-1], edges[1:]):
         thetas += [(a + b) / 2 + (b - a) / 2 * t for t in nodes]
         wts += [(b - a) / 2 * wq for wq in weights]
-    trials = []
-    for trial in range(30):
+    trials, xdts = [], []
+    # trials 30..47: x in float32 / int64 (parameters stay float64) with scales at the lower end and in the upper
+    # part of the range - the width a model USES (half maximum, integral) must be the one it REPORTS for every x dtype
+    XD = [('float32', 'small'), ('float32', 'large'), ('int64', 'large'), ('float32', 'small'), ('int64', 'small'), ('int64', 'large')]
+    for trial in range(48):
         kind = ['gauss', 'lorentz', 'pvoigt'][trial % 3]
         ux, uy = rng.choice(XUNITS), rng.choice(YUNITS)
         # numeric scales at and below the lower end of the property's range (in whatever unit x has) first:
         # a raised division-by-zero floor only shows there
         s = [1e-6, 5e-6, 3e-9, 1e-12][trial // 3] if trial < 12 else kcorr.loguniform(rng, 1e-6, 1e6)
         mu = rng.choice([0.0, float(rng.randint(-8, 8)) * s])
+        xdt = 'float64'
+        if trial >= 30:
+            xdt, cls = XD[(trial - 30) // 3]
+            if xdt == 'float32':
+                s = (rng.choice([1e-6, 5e-6]) if trial < 33 else rng.choice([2.0 ** -15, 1e-4, 1e-3])) if cls == 'small' \
+                    else kcorr.loguniform(rng, 1e3, 1e6)
+                mu = rng.choice([0.0, 2 * s, -s])
+            elif cls == 'large':
+                # integer x: loc and fwhm/2 are integers (Gaussian: scale = n / sqrt(2 ln 2), else scale = n)
+                nn = rng.randint(1000, 10 ** 6)
+                s = nn / math.sqrt(2 * math.log(2)) if kind == 'gauss' else float(nn)
+                mu = float(rng.randint(-8, 8) * nn)
+            else:
+                s = kcorr.loguniform(rng, 1e-3, 0.1)
+                mu = float(rng.randint(-8, 8))
+        xdts.append(xdt)
         A = sgn(rng) * kcorr.loguniform(rng, 1e-3, 1e3)
         f = rng.choice([0.0, 1.0, 0.25, rng.random()])
         if trial // 3 < 2:
@@ -677,21 +799,27 @@ def search(ctx, broken):
             plan.append(None)
             continue
         w = _val(rf)
-        ds = [0.5 * s, 1.0 * s, 2.0 * s, 4.0 * s]
-        far = [45.0, 300.0, 1000.0]
-        probe = ([mu] + [mu + d for d in ds] + [mu - d for d in ds] + [mu + w / 2, mu - w / 2]
-                 + [mu + z * s for z in far] + [mu - z * s for z in far] + [mu + 100.0 * s])
-        quad = [mu + s * math.tan(tt) for tt in thetas]
-        ent = {'w': w, 'ds': ds, 'probe': probe, 'lay': {}, 'scalar': [], 'quad': {}}
+        xdt = xdts[ti]
+        # the values as the dtype of x stores them (float32: rounded; int64: offsets rounded to integers, so that
+        # loc + d and loc - d stay mirror images)
+        snap = {'float64': float, 'float32': f32, 'int64': lambda v: float(round(v))}[xdt]
+        osnap = (lambda v: float(round(v))) if xdt == 'int64' else float
+        ds = [osnap(0.5 * s), osnap(1.0 * s), osnap(2.0 * s), osnap(4.0 * s)]
+        far = [osnap(z * s) for z in (45.0, 300.0, 1000.0)]
+        probe = [snap(v) for v in ([mu] + [mu + d for d in ds] + [mu - d for d in ds] + [mu + w / 2, mu - w / 2]
+                                   + [mu + z for z in far] + [mu - z for z in far] + [mu + osnap(100.0 * s)])]
+        quad = [snap(mu + s * math.tan(tt)) for tt in thetas]
+        ent = {'w': w, 'ds': ds, 'far': far, 'probe': probe, 'lay': {}, 'scalar': [], 'quad': {}, 'xdt': xdt}
         for lay in SEARCH_LAYOUTS:
-            xv, idx = layout_x(probe, [[ux, 1]], 'float64', lay, rng)
+            xv, idx = layout_x(probe, [[ux, 1]], xdt, lay, rng)
             ent['lay'][lay] = (len(calls), idx)
             calls.append({'id': len(calls), 'what': 'call', 'model': m, 'params': params, 'x': xv})
         for xv in probe:
             ent['scalar'].append(len(calls))
-            calls.append({'id': len(calls), 'what': 'call', 'model': m, 'params': params, 'x': var([xv], [[ux, 1]], 'float64', None)})
-        for lay in ('asc', 'desc', 'shuf'):
-            xv, idx = layout_x(quad, [[ux, 1]], 'float64', lay, rng)
+            calls.append({'id': len(calls), 'what': 'call', 'model': m, 'params': params, 'x': var([xv], [[ux, 1]], xdt, None)})
+        # integer x: the nodes of the quadrature cannot be represented, no integral
+        for lay in (('asc', 'desc', 'shuf') if xdt != 'int64' else ()):
+            xv, idx = layout_x(quad, [[ux, 1]], xdt, lay, rng)
             ent['quad'][lay] = (len(calls), idx)
             calls.append({'id': len(calls), 'what': 'call', 'model': m, 'params': params, 'x': xv})
         plan.append(ent)
@@ -711,8 +839,8 @@ def search(ctx, broken):
         if ent is None:
             continue
         kind, ux, uy, s, mu, A, f, p, m, params = t
-        w, ds, probe = ent['w'], ent['ds'], ent['probe']
-        ptxt = f'A={A}, loc={mu}, scale={s}' + (f', fraction={f}' if kind == 'pvoigt' else '')
+        w, ds, probe, xdt = ent['w'], ent['ds'], ent['probe'], ent['xdt']
+        ptxt = f'A={A}, loc={mu}, scale={s}' + (f', fraction={f}' if kind == 'pvoigt' else '') + f', x dtype {xdt}'
         scal = []
         for ci in ent['scalar']:
             scal.append(_val(rcs[ci]) if 'result' in rcs[ci] else None)
@@ -720,7 +848,7 @@ def search(ctx, broken):
             ci, idx = ent['lay'][lay]
             g = strip(calls[ci])
             r = rcs[ci]
-            ltxt = LAYOUT_TEXT[lay]
+            ltxt = LAYOUT_TEXT[lay] + ('' if xdt == 'float64' else f' of dtype {xdt}')
             if 'result' not in r:
                 viol(f'{kind}:call-raises', f'{kind} raises {r.get("error")} on valid parameters ({ltxt})',
                      {'group': g, 'error': r.get('error_text'), 'x_layout': lay})
@@ -734,7 +862,10 @@ def search(ctx, broken):
                      f'those of x ({r["x"]["dims"]}, {r["x"]["shape"]}; {ltxt})', {'group': g, 'x_layout': lay})
                 continue
             vals = values(ci, idx, len(probe))
-            xst = probe          # float64 x: stored exactly as generated
+            # the x values as the variable stores them (float32 / int64: probe was rounded to the dtype beforehand)
+            xst = [None] * len(probe)
+            for pos, i in enumerate(idx):
+                xst[i] = float(kcorr.fmt(r['x']['values'][pos]))
             peak = vals[0]
             # closed form, and the same value as the 0-d evaluation at that x
             for k, xv in enumerate(xst):
@@ -748,16 +879,20 @@ def search(ctx, broken):
                          f'alone as a 0-d x ({ptxt})', {'group': g, 'x': xv, 'in_array': vals[k], 'alone': scal[k], 'x_layout': lay})
                     break
             # symmetry
-            pairs = [(1 + j, 5 + j, ds[j]) for j in range(4)] + [(11 + j, 14 + j, [45.0, 300.0, 1000.0][j] * s) for j in range(3)]
+            pairs = [(1 + j, 5 + j, ds[j]) for j in range(4)] + [(11 + j, 14 + j, ent['far'][j]) for j in range(3)]
             for ia, ib, d in pairs:
                 a, b = vals[ia], vals[ib]
+                if xdt != 'float64' and abs((xst[ia] - mu) - (mu - xst[ib])) > 1e-12 * s:
+                    continue          # rounding x to the dtype moved the two points differently: not a mirror pair
                 if not abs(a - b) <= 1e-9 * abs(a) + 1e-300:
                     viol(f'{kind}:symmetry', f'{kind}: f(loc+d) = {a} != f(loc-d) = {b} for d = {d} ({ltxt}; {ptxt})',
                          {'group': g, 'd': d, 'plus': a, 'minus': b, 'x_layout': lay})
                     break
             # half maximum with the reported FWHM
             for k in (9, 10):
-                if not abs(vals[k] - peak / 2) <= 1e-7 * abs(peak) or peak == 0.0:
+                if xdt != 'float64' and abs(xst[k] - (mu + w / 2 if k == 9 else mu - w / 2)) > 3e-7 * abs(w):
+                    continue          # loc +- fwhm/2 is not representable in the dtype of x closely enough
+                if not abs(vals[k] - peak / 2) <= (1e-7 if xdt == 'float64' else 3e-6) * abs(peak) or peak == 0.0:
                     viol(f'{kind}:half-max', f'{kind}: f(loc +- fwhm/2) = {vals[k]} but f(loc)/2 = {peak / 2} with the reported fwhm = {w} '
                          f'({ltxt}; {ptxt})', {'group': g, 'fwhm': w, 'value_at_half_width': vals[k], 'half_peak': peak / 2, 'x_layout': lay})
                     break
@@ -770,7 +905,7 @@ def search(ctx, broken):
         # normalisation: int f dx = int f(mu + s tan t) s / cos^2 t dt, the nodes in three orders
         frac_l = {'gauss': 0.0, 'lorentz': 1.0, 'pvoigt': f}[kind]
         want = A * (frac_l * 2 * th / math.pi + (1 - frac_l))
-        for lay in ('asc', 'desc', 'shuf'):
+        for lay in (('asc', 'desc', 'shuf') if ent['quad'] else ()):
             ci, idx = ent['quad'][lay]
             vals = values(ci, idx, len(thetas))
             gq = {'model': m, 'params': params, 'what': 'call',
@@ -780,9 +915,9 @@ def search(ctx, broken):
                      {'group': gq, 'x_layout': lay})
                 continue
             integral = sum(wt * v * s / math.cos(tq) ** 2 for wt, v, tq in zip(wts, vals, thetas))
-            if not abs(integral - want) <= 1e-6 * abs(A):
+            if not abs(integral - want) <= (1e-6 if xdt == 'float64' else 5e-6) * abs(A):
                 viol(f'{kind}:normalisation', f'{kind} integrates to {integral} instead of its amplitude (expected {want} on the sampled range; '
-                     f'A = {A}; 1536 Gauss-Legendre nodes x = loc + scale tan(theta) handed over as a {LAYOUT_TEXT[lay]}; the replay keeps '
+                     f'{ptxt}; 1536 Gauss-Legendre nodes x = loc + scale tan(theta) handed over as a {LAYOUT_TEXT[lay]}; the replay keeps '
                      f'the first and last three nodes)',
                      {'group': gq, 'integral': integral, 'expected': want, 'amplitude': A, 'x_layout': lay,
                       'grid': 'x = loc + scale*tan(theta), theta = 48-point Gauss-Legendre nodes in 32 panels of (-pi/2+1e-3, pi/2-1e-3)'})
@@ -877,6 +1012,65 @@ def search(ctx, broken):
             if rr[i].get('error') != 'ValueError':
                 viol(f'bad-params:{what}', f'a call with a {what} parameter is not refused with ValueError (got {rr[i].get("error") or "a value"})',
                      {'group': {'model': m, 'params': list((miss if i == 4 else extra))}})
+    # refusal of wrong parameter sets on every kind of model: each valid name missing; an unknown name one edit away
+    # from a valid one (near_miss: another prefix of the same length, prefix dropped / doubled, a character appended /
+    # dropped / changed, case swapped) given instead of the valid name or in addition to the complete valid set
+    bad_trials = []
+    for trial in range(10):
+        kind = ['gauss', 'lorentz', 'pvoigt', 'poly', 'comp'][trial % 5]
+        ux, uy = rng.choice(XUNITS), rng.choice(YUNITS)
+        p = rng.choice([q for q in PREFIXES + NASTY if q]) if trial < 8 else ''
+        if kind == 'comp':
+            m = {'kind': 'comp', 'via': 'ctor', 'prefix': p, 'ctor': p, 'chain': [],
+                 'left': {'kind': 'poly', 'degree': 2, 'prefix': 'b_', 'ctor': 'b_', 'chain': []},
+                 'right': {'kind': rng.choice(['gauss', 'lorentz', 'pvoigt']), 'prefix': 'k', 'ctor': 'k', 'chain': []}}
+        else:
+            m = {'kind': kind, 'prefix': p, 'ctor': p, 'chain': []}
+            if kind == 'poly':
+                m['degree'] = 1 + trial % 6
+        params, _ = gen_params(rng, m, ux, uy, 0.0, 1.0)
+        X = var([0.0, 0.5, -1.25, 3.0], [[ux, 1]], 'float64', 'x')
+        names = list(params)
+        batch = [('valid', None, None, params)]
+        for nm in names:
+            batch.append(('missing', nm, None, {k: v for k, v in params.items() if k != nm}))
+        for variant in NEAR_VARIANTS:
+            for mode in ('instead of', 'in addition to'):
+                nmiss = near_miss(rng, p, names, variant)
+                if nmiss is None:
+                    continue
+                _, nm, unknown = nmiss
+                if mode == 'instead of':
+                    ps = {(unknown if k == nm else k): v for k, v in params.items()}
+                else:
+                    other = dict(params[nm], values=[hexf(float.fromhex(params[nm]['values'][0]) * 3.0)])
+                    ps = dict(params, **{unknown: other}) if rng.random() < 0.7 else dict({unknown: other}, **params)
+                batch.append((variant, nm, (mode, unknown), ps))
+        bad_trials.append((kind, p, m, X, batch))
+    allg = [{'id': 0, 'what': 'call', 'model': t[2], 'params': b[3], 'x': t[3]} for t in bad_trials for b in t[4]]
+    allg = [dict(b, id=i) for i, b in enumerate(allg)]
+    allr = ctx.run_impl('c16_impl.py', {'groups': allg})['groups'] if allg else []
+    off = 0
+    for kind, p, m, X, batch in bad_trials:
+        rr = allr[off:off + len(batch)]
+        gg = allg[off:off + len(batch)]
+        off += len(batch)
+        if 'result' not in rr[0]:
+            viol('object-layer:raises', f'a {kind} model with prefix {p!r} raises {rr[0].get("error") or rr[0].get("construct_error")} on its '
+                 f'complete parameter set {sorted(batch[0][3])}', {'group': strip(gg[0]), 'error': rr[0].get('error_text')})
+            continue
+        seen = set()
+        for (variant, nm, unk, ps), r, g in zip(batch[1:], rr[1:], gg[1:]):
+            if 'result' not in r or variant in seen:
+                continue
+            seen.add(variant)
+            if variant == 'missing':
+                viol('bad-params:missing', f'a {kind} model with prefix {p!r} called without its parameter {nm!r} (given: {sorted(ps)}) is not '
+                     f'refused: it returns a value', {'group': strip(g), 'missing': nm})
+            else:
+                viol(f'bad-params:unknown:{variant}', f'a {kind} model with prefix {p!r} (param_names {sorted(batch[0][3])}) called with the unknown '
+                     f'parameter name {unk[1]!r} {unk[0]} {nm!r} ({variant}) is not refused: it returns a value',
+                     {'group': strip(g), 'unknown_name': unk[1], 'valid_name': nm, 'mode': unk[0], 'near_miss': variant})
     # prefix independence of everything else the models hand out: param_names, guess(data), param_bounds, fwhm —
     # the same model under a constructor prefix and under a prefix reached by a chain of re-prefixings that
     # starts from a prefix occurring inside a bare parameter name
